@@ -421,12 +421,3 @@ func negativeWeightFuncFor(g graph.Graph) func(xid, yid int64) float64 {
 		return 1
 	}
 }
-
-// depth returns max(1, len(weights)). It is used to ensure
-// that multiplex community weights are properly initialised.
-func depth(weights []float64) int {
-	if weights == nil {
-		return 1
-	}
-	return len(weights)
-}
